@@ -41,15 +41,26 @@ where
     }
 
     pub fn reassemble(&mut self, mut buf: Bytes) -> Option<T> {
+        if buf.len() < 4 {
+            return None;
+        }
         let mut head = buf.split_to(4);
         let id = head.get_u16();
         let total = head.get_u8();
         let seq = head.get_u8();
         // tracing::trace!("reassemble id: {} total: {} seq: {}", id, total, seq);
+        // the completion bitmap has 128 bits; a fragment outside its group is malformed
+        if total == 0 || total as usize > MAX_FRAGMENTS || seq >= total {
+            return None;
+        }
         if total == 1 && seq == 0 {
             T::from_buffer(buf)
         } else if let Entry::Occupied(mut entry) = self.queue.entry(id) {
             let queue = entry.get_mut();
+            if queue.fragments.len() != total as usize {
+                // inconsistent with the group this id belongs to
+                return None;
+            }
             if queue.add_fragment(seq, buf) {
                 let buf = queue.assemble();
                 // tracing::trace!("reassembled {} bytes", buf.len());
@@ -75,6 +86,9 @@ where
     }
 }
 
+// limited by the width of the completion bitmap in ReassembleQueue
+const MAX_FRAGMENTS: usize = 127;
+
 pub struct MakeFragments<T> {
     buf: T,
     mtu: usize,
@@ -91,7 +105,15 @@ where
         assert!(mtu > 4);
         let size = mtu - 4;
         let len = buf.remaining();
-        let total = div_ceil(len, size) as u8;
+        let total = div_ceil(len, size);
+        // a thing that needs more fragments than the header can describe is not sent at all
+        let (buf, total) = if total > MAX_FRAGMENTS {
+            let mut buf = buf;
+            buf.advance(len);
+            (buf, 0)
+        } else {
+            (buf, total as u8)
+        };
         MakeFragments {
             buf,
             mtu,
